@@ -14,19 +14,14 @@ verus! {
 //@ type src/variable_versions/ipfix.rs - Data
 //@ type src/variable_versions/ipfix.rs - OptionsData
 
-pub type Records = Vec<BTreeMap<usize, (IPFixField, FieldValue)>>;
-/// semantic function of the record decoder for a given template (uninterpreted here)
-pub uninterp spec fn ipfix_fp(b: Seq<u8>, fields: Seq<TemplateField>) -> Option<(Records, Seq<u8>)>;
-
+//@ alias src/variable_versions/ipfix.rs - IPFixFieldPair
+pub type Records = Vec<BTreeMap<usize, IPFixFieldPair>>;
+}
+//@ include ipfix_records_spec.rs
+verus! {
 pub struct FieldParser;
 impl FieldParser {
-    #[verifier::external_body]
-    fn parse<'a, T: CommonTemplate>(i: &'a [u8], template: T) -> (r: IResult<&'a [u8], Records>)
-        ensures nom_view(r) == ipfix_fp(i@, template.fields_spec()),
-    { unimplemented!() }
-}
-pub open spec fn nom_view<T>(r: IResult<&[u8], T>) -> Option<(T, Seq<u8>)> {
-    match r { Ok((rest, v)) => Some((v, rest@)), Err(_) => None }
+//@ stub stubs/ipfix_fieldparser_parse.rs
 }
 pub trait CommonTemplate: Sized {
     spec fn fields_spec(&self) -> Seq<TemplateField>;
@@ -51,7 +46,7 @@ impl Default for OptionsTemplate { #[verifier::external_body] fn default() -> (r
 pub open spec fn data_post<'a>(cached: Option<Seq<TemplateField>>, b: &'a [u8], fields: Records, padding: Seq<u8>, ok: bool) -> bool {
     match cached {
         None => !ok,                                         // C07: nothing cached under this id => no records
-        Some(fs) => ok ==> fs.len() > 0 && (ipfix_fp(b@, fs) matches Some((recs, rest)) && recs == fields && padding == rest),
+        Some(fs) => ok ==> fs.len() > 0 && (irecs(fs, b@) matches Some((rows, rest)) && out_view(fields@) =~= flat_maps(fs, rows) && padding =~= rest),
     }
 }
 
@@ -60,7 +55,7 @@ impl Data {
 //@   generics: <'nom>
 //@   rules: R7 R10
 //@   contract: stubs/ipfix_data_parse.rs
-//@   closure 0: i: &'nom [u8] | -> (o: IResult<&'nom [u8], Records>) ensures nom_view(o) == ipfix_fp(i@, template.fields@)
+//@   closure 0: i: &'nom [u8] | -> (o: IResult<&'nom [u8], Records>) ensures ipfix_records_post(i, template.fields@, o)
 //@   ensures: data_post(if old(parser).templates@.contains_key(set_id) { Some(old(parser).templates@[set_id].fields@) } else { None }, orig_i, r->Ok_0.1.fields, r->Ok_0.1.padding@, r is Ok)
 //@   ensures: r is Ok ==> r->Ok_0.0@.len() == 0
 //@ end
@@ -75,7 +70,7 @@ impl OptionsData {
 //@   generics: <'nom>
 //@   rules: R7 R10
 //@   contract: stubs/ipfix_optionsdata_parse.rs
-//@   closure 0: i: &'nom [u8] | -> (o: IResult<&'nom [u8], Records>) ensures nom_view(o) == ipfix_fp(i@, template.fields@)
+//@   closure 0: i: &'nom [u8] | -> (o: IResult<&'nom [u8], Records>) ensures ipfix_records_post(i, template.fields@, o)
 //@   ensures: data_post(if old(parser).options_templates@.contains_key(set_id) { Some(old(parser).options_templates@[set_id].fields@) } else { None }, orig_i, r->Ok_0.1.fields, r->Ok_0.1.padding@, r is Ok)
 //@   ensures: r is Ok ==> r->Ok_0.0@.len() == 0
 //@ end
